@@ -23,6 +23,44 @@ structure OSt where
 structure St where
   m : MSt := {}
   o : OSt := {}
+  /-- `sys` cases: is this a system-level case, and how many replies the injected datagrams may cause -/
+  sys : Bool := false
+  allowed : Nat := 0
+
+/-! ### system-level monitor (`sys` cases: two real nodes, unsolicited datagrams)
+Specification: a datagram that belongs to no session and is not a session-establishment request is
+answered at most once — with the unsecured `SessionNotFound` report the specification asks for when
+the datagram claims a *secure* session the node does not have — and never when it is itself unsecured
+(then it is an answer / status / ack for an unknown exchange and must be dropped, otherwise two nodes
+answer each other's answers forever). -/
+
+def hexVal (c : Char) : Nat :=
+  if c.isDigit then c.toNat - '0'.toNat else if 'a' ≤ c && c ≤ 'f' then c.toNat - 'a'.toNat + 10 else 0
+
+def unhex (s : String) : List Nat :=
+  let rec go : List Char → List Nat
+    | a :: b :: rest => (hexVal a * 16 + hexVal b) :: go rest
+    | _ => []
+  go s.toList
+
+/-- replies the specification allows for one injected datagram -/
+def repliesAllowed (bytes : List Nat) : Nat :=
+  let sess := bytes.getD 1 0 + 256 * bytes.getD 2 0
+  let group := (bytes.getD 3 0) % 4 == 1
+  if sess != 0 && !group then 1 else 0
+
+def sysStep (st : St) (w : List String) (res : String) : St × String :=
+  match w.getD 0 "" with
+  | "inj" => ({ st with allowed := st.allowed + repliesAllowed (unhex (w.getD 3 "")) }, "ok")
+  | "run" =>
+    match words res with
+    | ["sent", a, b] =>
+      let total := a.toNat?.getD 0 + b.toNat?.getD 0
+      if total > st.allowed then
+        (st, s!"ORA {total} datagrams were sent in answer to unsolicited datagrams that allow at most {st.allowed}: answers to unknown sessions/exchanges are answered again")
+      else (st, "ok")
+    | _ => (st, "BAD run result")
+  | _ => (st, "BAD sys op")
 
 def ownerIdx (s : ISess) (exch : Nat) (initiator : Bool) : Option Nat :=
   let rec go : List (Option ISlot) → Nat → Option Nat
@@ -166,8 +204,9 @@ def oracle (o : OSt) (w : List String) (res : String) (snap : ISnap) : OSt × Op
 def step (st : St) (line : String) : St × String :=
   let (op, out) := splitArrow line
   match words op with
-  | "case" :: _ :: kind => ({ m := newCase kind }, "case")
+  | "case" :: _ :: kind => ({ m := newCase kind, sys := kind.head? = some "sys" }, "case")
   | w =>
+    if st.sys then sysStep st w out else
     let (res, snapS) := splitHash out
     let (m', dis) := modelStep st.m op out
     let (o', ora) := if st.m.isMrp then (st.o, none) else oracle st.o w res (parseSnap snapS)
